@@ -107,15 +107,16 @@ class Captured:
 
 
 @contextlib.contextmanager
-def capture_cex():
-    """harness-side wrapper around CounterexampleHandler.handle_assertion_violation"""
+def capture_cex(keep_exec=True):
+    """harness-side wrapper around CounterexampleHandler.handle_assertion_violation; keep_exec=False
+    records the failing paths without holding their Exec (and therefore their z3 terms) alive"""
     import halmos.__main__ as M
 
     cap = Captured()
     orig = M.CounterexampleHandler.handle_assertion_violation
 
     def wrapper(self, path_id, ex, panic_found, description=None):
-        cap.cex.append({"path_id": path_id, "ex": ex, "panic": panic_found, "probe": self.is_probe, "fun": self.ctx.info.sig, "description": description})
+        cap.cex.append({"path_id": path_id, "ex": ex if keep_exec else None, "panic": panic_found, "probe": self.is_probe, "fun": self.ctx.info.sig, "description": description})
         return orig(self, path_id, ex, panic_found, description)
 
     M.CounterexampleHandler.handle_assertion_violation = wrapper
@@ -150,7 +151,7 @@ class RunResult:
         return self.logs.warnings()
 
 
-def run(test_cj, name="T", funsigs=None, args=None, others=None, contract_args=None):
+def run(test_cj, name="T", funsigs=None, args=None, others=None, contract_args=None, capture=True):
     """run_contract on a hand-assembled test contract.  others: {ContractName: contract_json} that
     setUp may deploy (needed for name resolution of invariant targets)."""
     import halmos.__main__ as M
@@ -172,7 +173,7 @@ def run(test_cj, name="T", funsigs=None, args=None, others=None, contract_args=N
         abi=get_abi(test_cj), method_identifiers=mi, contract_json=test_cj, libs={}, build_out_map=bom,
     )
     out = io.StringIO()
-    with sym.LogCapture() as logs, capture_cex() as cap, contextlib.redirect_stdout(out):
+    with sym.LogCapture() as logs, capture_cex(keep_exec=bool(capture)) as cap, contextlib.redirect_stdout(out):
         # the unique-warning filter is process-global: clear it so that every run reports on its own
         results = M.run_contract(ctx)
     return RunResult(results, out.getvalue(), logs, cap, ctx)
